@@ -11,7 +11,7 @@ TEXT = {
          "Lean theorem (recursion = brute-force marginal) + differential check"),
  "C03": ("Theorems: both joint densities are invariant under sibling reordering, reordering inside clones and of the outlier list; the canonical form is density-preserving and a complete tree key (treeKey_iff); densities are positive (finite logs) for positive data; the outlier marginal is the single-clone marginal. Correspondence: log_p / log_p_one / fused variant / TreeHolder on trees realised through six construction histories vs the model; oracle = independent transcription of the property's formula; ==/hash vs (clades, outliers).",
          "Lean theorem (density depends only on the tree) + differential check"),
- "C04": ("Theorems: the data-point Gibbs scan and the prune-regraft move of the executable model leave pOne invariant on every well-formed closed state list (dataPointMove_invariant, pruneRegraft_invariant), any sequence of invariant kernels is invariant. The models of all three moves are compared row by row with the exact kernels of the real samplers; oracle pi K = pi per configuration. The random-subtree move's unconditional invariance is FALSE of model and code: known finding F7 (pinned instances, exact bias signature); level is `other` for that reason.",
+ "C04": ("Theorems: the data-point Gibbs scan and the prune-regraft move of the executable model leave pOne invariant on every well-formed closed state list (dataPointMove_invariant, pruneRegraft_invariant), any sequence of invariant kernels is invariant. The models of all three moves are compared row by row with the exact kernels of the real samplers; oracle pi K = pi per configuration. For the random-subtree move the conditional statement is proved: given the chosen region, the re-weighted conditional SMC (abstract theorem for corrected final weights, also with the single-data-point schedule) leaves the full-tree density restricted to that region invariant, for every region a well-formed tree can yield (subtree_conditional_invariant, subtree_region_ok); the unconditional invariance is FALSE of model and code: known finding F7 (pinned instances, exact bias signature; a validated repair is recorded in findings/), which is why the level is `other`.",
          "Lean theorem (block Gibbs on the model) + exact-kernel correspondence; known finding F7"),
  "C05": ("Theorems: genotype list = PyClone major-copy-number prior; expected VAF in (0,1); binomial and beta-binomial (Pochhammer form, Chu-Vandermonde) pmfs sum to one; the genotype mixture sums to one over all alternate counts and is positive; grid entry = mixture at CCF k/(G-1); cluster grid = product of members; outlier terms = per-mutation terms to the power of the cluster size. Correspondence: load_data on generated input files vs the model and vs a Fraction oracle.",
          "Lean theorem + differential check against load_data"),
@@ -41,7 +41,7 @@ TEXT = {
          "Lean theorem + differential check"),
  "C18": ("Logic core proved (collected map independent of completion order, chain isolation, single-chain quirk); the model cannot exhibit OS scheduling, hash seeds or process state, so the property is decided by a runtime differential: the real CLI under varied PYTHONHASHSEED, CPU affinity, chain counts and injected start/finish orders must give bit-identical per-chain traces; plus a static scan for ambient randomness.",
          "runtime differential + Lean proof of the collection logic"),
- "C19": ("Guards proved on the run-loop model (retained-particle lookup in range, subtree choice non-empty or fallback, weights positive so normalisation never divides by zero, schedule total); arbitrary Python exceptions cannot be excluded by a model, so the property is decided by running run_phyclone_chain over the cross-product of boundary option values (and the CLI end to end) with an oracle on every trace entry.",
+ "C19": ("Guards proved on the run-loop model (retained-particle lookup in range, subtree choice non-empty or fallback, weights positive so normalisation never divides by zero, schedule total); run-level theorems composing C01/C03/C06/C07/C15: every outcome of every sampler model from a complete well-formed tree is complete and well formed, every state of any schedule has positive density, every recorded entry restores to a complete tree whose recorded density is its positive fixed-root density (support_complete_wf, run_states_ok, run_entries_ok). Exceptions inside third-party libraries, float underflow on large inputs and OS failures cannot be excluded by a model, so the property is decided by running run_phyclone_chain over the cross-product of boundary option values, the click command at the edges of every ranged option (clamping, clean rejection) and the CLI end to end, with an oracle on every trace entry.",
          "boundary cross-product exploration + Lean proof of the guards"),
  "C20": ("Every prefix length of sampled real trace files is fed to the three reader commands: outcome must be an error or byte-identical to the full file, monotone in the prefix length; crash points of the single write are simulated. Framing theorems (self-delimiting serialiser, stream container, read_prefix_safe) proved on the model under explicit lawfulness assumptions about gzip/pickle.",
          "exhaustive fault enumeration + Lean framing proof"),
